@@ -40,6 +40,20 @@ ConcMon(e) ==
      THEN {"C05.conc_reader_saw_unaccepted_roles"} ELSE {}) \cup
     (IF \A r1, r2 \in DOMAIN e.reads : r1 < r2 => e.reads[r1].epoch <= e.reads[r2].epoch THEN {} ELSE {"C05.conc_epoch_regressed"})
 
+\* a batch of concurrent replication messages, some of them FORCED (spec/MetaConc.tla), followed by one lone non-forced message:
+\* the lone message is judged, by the sequential contract, against the message whose roles are installed after the batch
+RaceMon(e) ==
+    IF e.free_run THEN {} ELSE
+    LET idx == DOMAIN e.msgs
+        oks == {i \in idx : e.replies[i] = "OK"}
+        st == [InitState EXCEPT !.rEpoch = e.installed_epoch, !.rContent = e.installed_id]
+        d == Deliver(st, [kind |-> "R", epoch |-> e.late.epoch, force |-> FALSE, content |-> e.late.id, hostOk |-> TRUE]) IN
+    (IF \A i \in idx : e.msgs[i].force => e.replies[i] = "OK" THEN {} ELSE {"C05.forced_message_refused"}) \cup
+    (IF e.installed_id = 0 \/ e.installed_id \in oks THEN {} ELSE {"C05.race_roles_of_unaccepted_message"}) \cup
+    (IF oks # {} /\ e.installed_id = 0 THEN {"C05.race_accepted_but_nothing_installed"} ELSE {}) \cup
+    (IF e.late_reply = d.reply THEN {} ELSE {"C05.lone_message_misjudged_after_race"}) \cup
+    (IF e.after_id = Roles(d.s) THEN {} ELSE {"C05.roles_not_of_accepted_message_after_race"})
+
 Init == l = 1 /\ s = InitState /\ viol = {}
 Step ==
     /\ l <= N
@@ -47,6 +61,7 @@ Step ==
        CASE e.kind = "reset" -> s' = InitState /\ viol' = viol
          [] e.kind = "deliver" -> s' = Deliver(s, e.msg).s /\ viol' = viol \cup {<<l, x>> : x \in SeqMon(e)}
          [] e.kind = "concurrent" -> s' = s /\ viol' = viol \cup {<<l, x>> : x \in ConcMon(e)}
+         [] e.kind = "race" -> s' = s /\ viol' = viol \cup {<<l, x>> : x \in RaceMon(e)}
          [] OTHER -> UNCHANGED <<s, viol>>
     /\ l' = l + 1
     /\ (l = N) => JsonSerialize(IOEnv.OUT, [n |-> N, viol |-> SetToSeq({[line |-> v[1], mon |-> v[2]] : v \in viol'}), div |-> <<>>])
